@@ -340,7 +340,10 @@ ADDENDA4 = {
             'C19_stored_options_ignored_counterexample (Model/StoredMetric); provenance carries the options of the storing query / whether it failed / whether a '
             'modifier wrote the variable: new violation classes history-dependent, left-by-failed-query, modifier-rewrote-derived; user-variable layouts incl. '
             'one-step series compared as stored.', 'the StoredMetric model is tied by the oracle only'),
-    'C20': ('@C20@', ''),
+    'C20': ('C20_sum_truncation_counterexample, C20_mean_wrap_eq, C20_mean_narrow_accumulation_counterexample, C20_merge_via_table_eq, '
+            'C20_table_valid_after_merge, C20_stale_table_counterexample (Props/C20Round5: the once-per-sweep vertex -> cell table of merge_vertices, dtype '
+            'effects of the transfers); the transferred FIELD as a generator dimension (dtype / layout / rank, snapshot of the source, literal round trip), '
+            'stream chain-collapse; one-dimensional fields (80f1bf5) and narrow-dtype accumulation (01094bc) repaired.', ''),
 }
 for _p, (_t, _n) in ADDENDA4.items():
     if _p in CLAIMED and _t and not _t.startswith('@'):
